@@ -434,7 +434,22 @@ def default_key(ctx, R="R-C17-default-key"):
               % ("no membership test against the archive" if not member else "search does not start at 0"))
     rdr = prog.func("util._numpy_archive_read_signal")
     txt = astq.text(rdr.node)
-    ctx.check("archive['arr_0']" in txt, R, rdr, rdr.node, "the un-keyed archive reader loads arr_0 (the writer's default for a fresh archive)")
+    # by value: with no key the reader returns the archive's 'arr_0' (however the choice between key and default is spelt)
+    ok_default = "archive['arr_0']" in txt
+    try:
+        from .. import scenario as SC
+        evr = SymEval(prog, rdr).run()
+        rv = None
+        for g_, v_, _ in reversed(evr.returns):
+            rv = v_ if rv is None else S.cond(g_, v_, rv)
+        if rv is not None:
+            rv = SC.lift_conds(rv)
+            nokey = SC.transform(rv, lambda x: S.NONE if (x.op == "sym" and x.args[0] == "key") else None)
+            ok_default = any(cc.is_call(x, "getitem") and len(x.args) == 3 and x.args[2].is_const and x.args[2].value == "arr_0" for x in S.walk(nokey) if isinstance(x, S.E)) \
+                and not any(cc.is_call(x, "getitem") and len(x.args) == 3 and x.args[2] == S.NONE for x in S.walk(nokey) if isinstance(x, S.E))
+    except Exception:
+        pass
+    ctx.check(ok_default, R, rdr, rdr.node, "the un-keyed archive reader loads arr_0 (the writer's default for a fresh archive)")
 
 
 def loader(ctx, R="R-C17-loader"):
